@@ -68,7 +68,7 @@ Proof.
 Qed.
 
 Ltac setters_in M :=
-  cbn [ps pend hsI hsO hopen hval conn dead nsid spend tasks ntask lastt
+  cbn [ps pend hsI hsO hopen hval conn dead nsid spend tasks ntask lastt timers narm set_timers arm
        set_ps set_pend set_hsI set_hsO set_hopen set_hval set_conn set_dead set_nsid set_spend set_tasks spawn_task] in M;
   rewrite ?upd_same in M.
 
